@@ -74,7 +74,11 @@ pub fn alphabet_c12() -> Vec<Ev> {
         let other = if a == A1 { A2 } else { A3 };
         v.push(fr(&format!("{n}.df18cf0.ident"), enc::df18_with_pi(0, a, enc::me_ident(4, 0, "TIS"), other)));
         v.push(fr(&format!("{n}.df18cf2.pos"), enc::df18_with_pi(2, a, enc::me_pos_latlon(11, 5000, false, p1.0, p1.1), other)));
+        v.push(fr(&format!("{n}.df18cf6.vel"), enc::df18_with_pi(6, a, enc::me_vel_kt(-50, 70, -128), other)));
     }
+    // a report that cannot pair with p1 (3000 km away): the position record is rejected, the accounting must not be
+    let far = dest(p1, 3000.0, 100.0);
+    v.push(fr("a1.far.odd", enc::es_frame(17, 5, A1, enc::me_pos_latlon(11, 30000, true, far.0, far.1))));
     v.push(fr("a3.identCCC", enc::es_frame(17, 5, A3, enc::me_ident(4, 0, "CCC"))));
     v.push(fr("a3.p1.even", enc::es_frame(17, 5, A3, enc::me_pos_latlon(11, 3000, false, p1.0, p1.1))));
     // non-ES formats carrying a1 in their address bits
@@ -199,6 +203,8 @@ pub fn alphabet_c14(rx: (f64, f64)) -> Vec<Ev> {
         v.push(fr(&format!("{n}.identB_B"), enc::es_frame(17, 5, a, enc::me_ident(4, 0, "B B12345"))));
         v.push(fr(&format!("{n}.vel1"), enc::es_frame(17, 5, a, enc::me_vel_kt(100, -200, 640))));
         v.push(fr(&format!("{n}.vel2"), enc::es_frame(17, 5, a, enc::me_vel_kt(-5, 300, -1280))));
+        // same track as vel1 (bit-identical heading), twice the speed, another vertical rate
+        v.push(fr(&format!("{n}.vel1x2"), enc::es_frame(17, 5, a, enc::me_vel_kt(200, -400, -64))));
         v.push(fr(&format!("{n}.vel0"), enc::es_frame(17, 5, a, enc::me_vel_gs(1, 0, 0, 0, 5, 0, 0, 3))));
         v.push(fr(&format!("{n}.airspeed"), enc::es_frame(17, 5, a, 19u64 << 51 | 3 << 48 | 1 << 42 | 100 << 32 | 200 << 21 | 5 << 10)));
         v.extend(pos_letters(&format!("{n}.p0"), a, p0, 10000));
@@ -217,6 +223,9 @@ pub fn alphabet_c15(t: u64) -> Vec<Ev> {
         fr("a2.vel", enc::es_frame(17, 5, A2, enc::me_vel_kt(100, -200, 640))),
         fr("nonES.df11.a1", enc::df11_frame(5, A1, 0)),
         fr("a1.df18.tc0", enc::df18_with_pi(0, A1, 0, A2)),
+        fr("a1.tc31", enc::es_frame(17, 5, A1, 31u64 << 51)),
+        fr("a1.p.even", enc::es_frame(17, 5, A1, enc::me_pos_latlon(11, 10000, false, 35.2, -80.2))),
+        fr("a1.p.odd", enc::es_frame(17, 5, A1, enc::me_pos_latlon(11, 10000, true, 35.2, -80.2))),
         Ev::Wait(1),
         Ev::Prune(t),
     ];
